@@ -116,6 +116,12 @@ CHECKS = {
         text='All expression trees with up to 2 operators over 14 boundary operands and 3 operators over 6 (thorough: 3 over 10, 4 over 4) in four renderings, and every string up to length 5 (7) over the arithmetic alphabet, evaluated by the real calculator and compared with an exact i128/IEEE reference; small trees also through the real binary.',
         note='Operand set, operator count and string length are the bound; overflow/division by zero/negative exponents are unspecified by the statement and only checked for crash freedom.',
         ref='DESIGN.md §4 C19'),
+    'C20': dict(
+        engine='E5 pty session explorer on the real interactive binary (real line editor and completer)',
+        technique='bounded-exhaustive enumeration of all file names up to a length over the special-character alphabet x quoting contexts, completed with TAB in the real interactive binary on a pseudo-terminal and read back through a recording helper',
+        text='Every name of length 1 and 2 (thorough: also 3 in the unquoted context) over a 27-character alphabet of shell-special characters, preceded by a unique prefix, is created as a file (or as a directory for cd); the prefix is typed unquoted, after an open single quote and after an open double quote, TAB and Enter are pressed in the real interactive cicada on a pty: the helper must receive exactly the entry name (cd must enter exactly that directory). Candidate lists (TAB TAB) on a shared-prefix population must offer exactly the entries with the typed prefix, directories only after cd. Failures inside a batch are believed only when reproduced alone in a fresh session.',
+        note='Single-candidate completion per prefix; completion end is detected by terminal quiescence (40 ms); names longer than the bound are outside.',
+        ref='DESIGN.md §4 C20'),
 }
 
 NOT_YET = 'check not built yet in this round (planned, see DESIGN.md §4)'
